@@ -33,6 +33,7 @@ type Solver struct {
 	declUF  map[string]bool
 	ufLevels map[int][]string
 	timeout int // ms per query
+	curTimeout int
 	Stats   SolverStats
 	log     io.Writer
 	dead    bool
@@ -78,6 +79,7 @@ func (s *Solver) start() error {
 	s.levels = [][]uint32{nil}
 	s.declUF = map[string]bool{}
 	s.dead = false
+	s.curTimeout = 0
 	if s.kind == "cvc5" {
 		s.send("(set-logic ALL)")
 	}
@@ -230,6 +232,22 @@ func (s *Solver) readLine() (string, error) {
 	return strings.TrimSpace(line), err
 }
 
+func (s *Solver) limit() int {
+	if s.curTimeout > 0 {
+		return s.curTimeout
+	}
+	return s.timeout
+}
+
+// SetQueryTimeout changes the soft per-query limit for subsequent checks (z3 only).
+func (s *Solver) SetQueryTimeout(ms int) {
+	if s.kind == "cvc5" || ms == s.curTimeout {
+		return
+	}
+	s.curTimeout = ms
+	s.send(fmt.Sprintf("(set-option :timeout %d)", ms))
+}
+
 func (s *Solver) Check() Result {
 	if s.dead {
 		return Unknown
@@ -251,7 +269,7 @@ func (s *Solver) Check() Result {
 	}()
 	select {
 	case <-done:
-	case <-time.After(time.Duration(s.timeout)*time.Millisecond + 20*time.Second):
+	case <-time.After(time.Duration(s.limit())*time.Millisecond + 20*time.Second):
 		// solver ignored its own limit: kill it; session state is lost
 		s.cmd.Process.Kill()
 		<-done
